@@ -50,7 +50,7 @@ Definition c22_build (g : grammar) (c : config) (mm : list ninfo) (tbl tbl' : li
   match run g c (orc_of tbl) false fuel (a ++ b)%list with
   | Parsed r => show_bool (fits_res (List.length a) r)
   | _ => "-"
-  end.
+  end ++ show_bool (no_empty_lit g).
 """
 BUILD_SAMPLE = 140
 DEFAULT_WS = "\t\n\r "
@@ -544,6 +544,10 @@ def run(chk):
                 return {"cls": v["cls"], "attrs": [[a, _nopos(x)] for a, x in v["attrs"]]}
             if "l" in v:
                 return {"l": [_nopos(x) for x in v["l"]]}
+            if "ref" in v:          # pending reference of Build.v: name and class, not its position
+                return {"ref": _nopos(v["ref"]), "refcls": v.get("refcls")}
+            if "refto" in v:        # resolved reference of the implementation: target name and class
+                return {"refto": {"name": v["refto"].get("name"), "cls": v["refto"].get("cls")}}
         return v
 
     for (ci, ri, mi), bv in zip(sample, bvals):
@@ -563,8 +567,14 @@ def run(chk):
             disagreements.append({"case": cinfo, "impl": run_["full"], "model": ["Build(original)", o0]})
         if not bc.outcomes_agree(o1, m["full"]):
             disagreements.append({"case": dict(cinfo, mutated=m["text"]), "impl": m["full"], "model": ["Build(mutated)", o1]})
+        fl, nel = fl[:-1], fl[-1] == "T"
+        if nel and 0 < m["k"] < len(run_["text"]):
+            # C22_fits_of_run: for an interior insertion the tree condition follows from grammar + oracle
+            chk.stat("theorem C22_model_unchanged applies (table hypotheses: no '' literal, interior insertion)")
+            if fl != "T":
+                disagreements.append({"case": cinfo, "impl": "C22_fits_of_run", "model": "fits_res = %s" % fl})
         if fl == "T":
-            chk.stat("theorem C22_model_unchanged applies (fits)")
+            chk.stat("theorem C22_model_unchanged_partial applies (fits)")
             same = (o0["ok"] == o1["ok"]) and (_nopos(o0.get("value")) == _nopos(o1.get("value")) if o0["ok"] else o0.get("err") == o1.get("err"))
             if not same:
                 disagreements.append({"case": cinfo, "impl": "model theorem conclusion", "model": [o0, o1]})
